@@ -927,6 +927,25 @@ where
     pub fn max(&self) -> f64 {
         self.inner.borrow().max
     }
+
+    /// Verification hook: `(sum, count)` of every centroid after applying the pending compression.
+    #[cfg(feature = "verif")]
+    pub fn verif_centroids(&self) -> Vec<(f64, f64)> {
+        self.inner.borrow_mut().merge();
+        self.inner
+            .borrow()
+            .centroids
+            .iter()
+            .map(|c| (c.sum, c.count))
+            .collect()
+    }
+
+    /// Verification hook: the sample counter handed to the scale function and the backlog length.
+    #[cfg(feature = "verif")]
+    pub fn verif_n_samples(&self) -> (usize, usize) {
+        let inner = self.inner.borrow();
+        (inner.n_samples, inner.backlog.len())
+    }
 }
 
 #[cfg(test)]
